@@ -40,6 +40,8 @@ TRUSTED = [
     "needs_quoting is used through its frozen model Defaults.needs_quoting (type-expression parser TyExpr)",
     "class level (parse.class_ + merge_inner_function): the class IR that _merge_inner_function starts from is taken from the real parse.class_; only the merge is modelled",
     "oracle: free names in generated definitions are executed as stub objects whose repr reconstructs their source",
+    "oracle: what a ReST docstring says when a :type field stands directly before the :param/:cvar entry it belongs to is parse.docstring's reading of the same fields in the usual order (canon_field_order)",
+    "oracle (history stratum): 'parsed alone' means parsed in a worker forked from a process that has only imported doctrans",
 ]
 NONESTR = "```(None)```"
 NONE_LIKE = (None, "None", NONESTR)
